@@ -142,6 +142,21 @@ def closed_flag_attr(p: Program) -> Tuple[ClassInfo, FuncInfo, str]:
             t = n.test
             if isinstance(t, ast.UnaryOp) and isinstance(t.op, ast.Not) and isinstance(t.operand, ast.Attribute) and isinstance(t.operand.value, ast.Name) and t.operand.value.id == "self":
                 return cls, call, t.operand.attr
+    # the same test inside the __anext__ of a private iterator object the loop runs over
+    # (`async for chunk in _ChunksWhileConnected(self, generator)` with `if self._response._client_closed: raise StopAsyncIteration`)
+    for n in walk_shallow(call.node):
+        if isinstance(n, ast.AsyncFor) and isinstance(n.iter, ast.Call) and isinstance(n.iter.func, ast.Name):
+            try:
+                ic = p.cls(f"{cls.module.name}:{n.iter.func.id}")
+            except Exception:
+                ic = None
+            nx = ic.methods.get("__anext__") if ic is not None and ic.name.startswith("_") else None
+            if nx is None:
+                continue
+            for t in ast.walk(nx.node):
+                if isinstance(t, ast.If) and isinstance(t.test, ast.Attribute) and isinstance(t.test.value, ast.Attribute) and isinstance(t.test.value.value, ast.Name) and t.test.value.value.id == "self" \
+                        and any(isinstance(x, ast.Raise) and "StopAsyncIteration" in ast.unparse(x) for x in t.body):
+                    return cls, call, t.test.attr
     raise AnalysisError("asgi StreamingResponse.__call__: no `while not self.<flag>` streaming loop")
 
 
